@@ -28,6 +28,10 @@ def get_deterministic_sign_multiplier(data, axis: int):
     max_vals = np.max(data, axis=axis)
     min_vals = np.min(data, axis=axis)
     sign_multiplier = np.where(np.abs(max_vals) >= np.abs(min_vals), 1, -1)
+    # Entries that are all equal and negative tie above; their sign must be flipped too
+    sign_multiplier = np.where(
+        (max_vals == min_vals) & (np.real(max_vals) < 0), -1, sign_multiplier
+    )
     return sign_multiplier
 
 
